@@ -49,6 +49,12 @@ theorem xstep_core (x : XState) (op : XOp) :
   | hookRaise =>
     simp only [xstep, coreOps, run]
     split <;> simp [coreOuts]
+  | peerRequest r =>
+    simp only [xstep, coreOps, run, step]
+    split <;> simp [coreOuts]
+  | handlerEnd ok =>
+    simp only [xstep, coreOps, run]
+    split <;> simp [coreOuts]
 
 theorem run_append (s : State) (a b : List Op) :
     run s (a ++ b) = ((run (run s a).1 b).1, (run s a).2 ++ (run (run s a).1 b).2) := by
@@ -98,6 +104,14 @@ theorem xstep_hook_closed (x : XState) (op : XOp) (hinv : x.pending ≠ [] → x
     split at ho
     · simp at ho; subst ho; rcases hk with ⟨_, h⟩ | h | h <;> cases h
     · rename_i h; exact hinv (by simp [h])
+  | peerRequest r =>
+    exfalso
+    simp only [xstep, step] at ho
+    split at ho <;> simp at ho <;> subst ho <;> rcases hk with ⟨_, h⟩ | h | h <;> cases h
+  | handlerEnd ok =>
+    exfalso
+    simp only [xstep] at ho
+    split at ho <;> simp at ho <;> subst ho <;> rcases hk with ⟨_, h⟩ | h | h <;> cases h
 
 /-- invariant: while logout hooks are in progress the client is closed -/
 theorem xstep_inv (x : XState) (op : XOp) (hinv : x.pending ≠ [] → x.core.closed = true) :
@@ -126,6 +140,12 @@ theorem xstep_inv (x : XState) (op : XOp) (hinv : x.pending ≠ [] → x.core.cl
     split
     · exact hinv
     · intro hp; exact absurd rfl hp
+  | peerRequest r =>
+    simp only [xstep, step]
+    split <;> exact hinv
+  | handlerEnd ok =>
+    simp only [xstep]
+    split <;> exact hinv
 
 theorem xrun_inv (x : XState) (ops : List XOp) (hinv : x.pending ≠ [] → x.core.closed = true) :
     (xrun x ops).1.pending ≠ [] → (xrun x ops).1.core.closed = true := by
@@ -142,6 +162,177 @@ theorem xrun_snoc (x : XState) (ops : List XOp) (op : XOp) :
   induction ops generalizing x with
   | nil => simp [xrun]
   | cons o r ih => simp [xrun, ih, List.append_assoc]
+
+/-! ## the peer's own requests -/
+
+/-- a REQUEST received from the peer — whatever its call id — leaves the call-matching state untouched and produces
+    no call-matching output (no event set, no call completed, no warning) -/
+theorem xstep_peerRequest_core (x : XState) (r : PeerReq) :
+    (xstep x (.peerRequest r)).1.core = x.core ∧ coreOuts (xstep x (.peerRequest r)).2 = [] := by
+  simp only [xstep, step]
+  split <;> simp [coreOuts]
+
+theorem xstep_handlerEnd_core (x : XState) (ok : Bool) :
+    (xstep x (.handlerEnd ok)).1.core = x.core ∧ coreOuts (xstep x (.handlerEnd ok)).2 = [] := by
+  simp only [xstep]
+  split <;> simp [coreOuts]
+
+/-- received requests are inert for the core machine: removing them from a run changes neither the final state nor
+    any output -/
+theorem run_drop_requests (s : State) (ops : List Op) :
+    run s ops = run s (ops.filter fun op => op != .recvRequest) := by
+  induction ops generalizing s with
+  | nil => rfl
+  | cons op rest ih =>
+    by_cases h : op = .recvRequest
+    · subst h
+      have : (List.filter (fun op => op != Op.recvRequest) (Op.recvRequest :: rest)) = List.filter (fun op => op != Op.recvRequest) rest := by
+        simp
+      rw [this, ← ih]
+      simp [run, step]
+    · have : (List.filter (fun op => op != Op.recvRequest) (op :: rest)) = op :: List.filter (fun op => op != Op.recvRequest) rest := by
+        simp [h]
+      rw [this]
+      simp only [run]
+      rw [ih]
+
+/-- the extended reading of a datagram projects onto the core reading -/
+theorem xopOfData_core (data : Bytes) :
+    (xopOfData data).map (fun o => coreOps [o]) = (opOfData data).map fun o => [o] := by
+  unfold xopOfData opOfData
+  cases decode data with
+  | error e => rfl
+  | ok m =>
+    by_cases h : m.mode = 0 <;> simp [h, coreOps]
+
+theorem servedIds_append (a b : List XOut) : servedIds (a ++ b) = servedIds a ++ servedIds b := by
+  induction a with
+  | nil => rfl
+  | cons x r ih => cases x <;> simp [servedIds, ih]
+
+theorem answeredIds_append (a b : List XOut) : answeredIds (a ++ b) = answeredIds a ++ answeredIds b := by
+  induction a with
+  | nil => rfl
+  | cons x r ih => cases x <;> simp [answeredIds, ih]
+
+theorem servedIds_map_core (l : List Out) : servedIds (l.map .core) = [] := by
+  induction l with
+  | nil => rfl
+  | cons x r ih => simp [servedIds, ih]
+
+theorem answeredIds_map_core (l : List Out) : answeredIds (l.map .core) = [] := by
+  induction l with
+  | nil => rfl
+  | cons x r ih => simp [answeredIds, ih]
+
+theorem nextHook_served (x : XState) (rest : List Nat) :
+    servedIds (nextHook x rest).2 = [] ∧ answeredIds (nextHook x rest).2 = [] ∧ (nextHook x rest).1.handling = x.handling := by
+  cases rest <;> simp [nextHook, servedIds, answeredIds]
+
+/-- one step serves exactly the peer request it received (if any), under that request's call id -/
+theorem xstep_served (x : XState) (op : XOp) :
+    servedIds (xstep x op).2 = (peerReqs [op]).map (·.callId) := by
+  cases op with
+  | core o =>
+    simp only [xstep, peerReqs]
+    split
+    · simp [servedIds_append, servedIds_map_core, (nextHook_served _ _).1]
+    · simp [servedIds_map_core]
+  | hookReturn =>
+    simp only [xstep, peerReqs]
+    split
+    · simp [servedIds]
+    · simp [(nextHook_served _ _).1]
+  | hookRaise =>
+    simp only [xstep, peerReqs]
+    split <;> simp [servedIds]
+  | peerRequest r =>
+    simp only [xstep, step, peerReqs]
+    split <;> simp [servedIds]
+  | handlerEnd ok =>
+    simp only [xstep, peerReqs]
+    split <;> simp [servedIds]
+
+theorem peerReqs_append (a b : List XOp) : peerReqs (a ++ b) = peerReqs a ++ peerReqs b := by
+  induction a with
+  | nil => rfl
+  | cons x r ih => cases x <;> simp [peerReqs, ih]
+
+/-- every request of the peer is served exactly once — handed to the registered server's `handle`, or refused with the
+    NotImplemented answer — under its own call id, in the order received, whatever else happens on the connection -/
+theorem xrun_served (x : XState) (ops : List XOp) :
+    servedIds (xrun x ops).2 = (peerReqs ops).map (·.callId) := by
+  induction ops generalizing x with
+  | nil => rfl
+  | cons op rest ih =>
+    have e : peerReqs (op :: rest) = peerReqs [op] ++ peerReqs rest := by
+      rw [← peerReqs_append]; rfl
+    simp only [xrun, servedIds_append, e, List.map_append]
+    rw [xstep_served, ih]
+
+/-- one step: an answer is sent only for the request being handled, and carries that request's call id -/
+theorem xstep_answered (x : XState) (op : XOp) :
+    (∀ id ∈ answeredIds (xstep x op).2, ∃ r, x.handling = some r ∧ r.callId = id) ∧
+    (∀ r, (xstep x op).1.handling = some r → x.handling = some r ∨ r.callId ∈ servedIds (xstep x op).2) := by
+  cases op with
+  | core o =>
+    simp only [xstep]
+    split
+    · refine ⟨by simp [answeredIds_append, answeredIds_map_core, (nextHook_served _ _).2.1], ?_⟩
+      intro r h; rw [(nextHook_served _ _).2.2] at h; exact .inl h
+    · exact ⟨by simp [answeredIds_map_core], fun r h => .inl h⟩
+  | hookReturn =>
+    simp only [xstep]
+    split
+    · exact ⟨by simp [answeredIds], fun r h => .inl h⟩
+    · refine ⟨by simp [(nextHook_served _ _).2.1], ?_⟩
+      intro r h; rw [(nextHook_served _ _).2.2] at h; exact .inl h
+  | hookRaise =>
+    simp only [xstep]
+    split
+    · exact ⟨by simp [answeredIds], fun r h => .inl h⟩
+    · exact ⟨by simp [answeredIds], fun r h => .inl h⟩
+  | peerRequest r =>
+    simp only [xstep, step]
+    split
+    · refine ⟨by simp [answeredIds], ?_⟩
+      intro r' h
+      simp at h
+      subst h
+      right; simp [servedIds]
+    · exact ⟨by simp [answeredIds], fun r h => .inl h⟩
+  | handlerEnd ok =>
+    simp only [xstep]
+    split
+    · exact ⟨by simp [answeredIds], fun r h => .inl h⟩
+    · rename_i r h
+      exact ⟨by simp [answeredIds, h], by simp⟩
+
+/-- every answer sent in a run carries the call id of a peer request that was dispatched before it -/
+theorem xrun_answered (x : XState) (ops : List XOp) (acc : List XOut)
+    (hh : ∀ r, x.handling = some r → r.callId ∈ servedIds acc)
+    (ha : ∀ id ∈ answeredIds acc, id ∈ servedIds acc) :
+    ∀ id ∈ answeredIds (acc ++ (xrun x ops).2), id ∈ servedIds (acc ++ (xrun x ops).2) := by
+  induction ops generalizing x acc with
+  | nil => simpa [xrun] using ha
+  | cons op rest ih =>
+    obtain ⟨s1, s2⟩ := xstep_answered x op
+    have := ih (xstep x op).1 (acc ++ (xstep x op).2)
+      (by
+        intro r hr
+        rw [servedIds_append]
+        rcases s2 r hr with h | h
+        · exact List.mem_append_left _ (hh r h)
+        · exact List.mem_append_right _ h)
+      (by
+        intro id hid
+        rw [answeredIds_append] at hid
+        rw [servedIds_append]
+        rcases List.mem_append.mp hid with h | h
+        · exact List.mem_append_left _ (ha id h)
+        · obtain ⟨r, hr, rfl⟩ := s1 id h
+          exact List.mem_append_left _ (hh r hr))
+    simpa [xrun, List.append_assoc] using this
 
 /-! ## request ids are pairwise distinct (one-way requests included) -/
 
